@@ -291,6 +291,15 @@ func TestChunkinfoReqResp(t *testing.T) {
 				defer cancelH()
 				var err error
 				step("handler", func() { err = h(ctx, fullPeer(peerX), pbench.NewStream(b)) })
+				// the same overlay answers again: with an exact-length vector, then with an
+				// over-long one (whatever the first message left behind must cope with both)
+				if st == "holding-file" {
+					step("second-answer-exact-length", func() { _ = h(ctx, fullPeer(peerX), pbench.NewStream(valid[0])) })
+					step("third-answer-over-long", func() {
+						_ = h(ctx, fullPeer(peerX), pbench.NewStream(resp(R.Bytes(), peerX, self, map[string][]byte{peerX.String(): bitvecFor(64, 0xff)})))
+					})
+					step("fourth-answer-exact-length", func() { _ = h(ctx, fullPeer(peerX), pbench.NewStream(valid[0])) })
+				}
 				followUps(n, R, file.cids, peerX, step)
 				cancel()
 				if res != nil {
